@@ -18,6 +18,10 @@ import (
 	"google.golang.org/protobuf/proto"
 )
 
+// zz26ErrBadKey: the libp2p crypto package is opaque (never initialised) under the engine, so its error values are
+// nil there; the key models use their own.
+var zz26ErrBadKey = errors.New("zz26: bad key")
+
 // =====================================================================================================
 // Models (bound under the engine only; natively the real code runs)
 // =====================================================================================================
@@ -66,7 +70,7 @@ func zz26MarshalPublicKey(pk ic.PubKey) ([]byte, error) {
 // bound to ic.UnmarshalPublicKey
 func zz26UnmarshalPublicKey(data []byte) (ic.PubKey, error) {
 	if len(data) != 2 || data[0] != 0x4b || data[1] > 2 {
-		return nil, ic.ErrBadKeyType
+		return nil, zz26ErrBadKey
 	}
 	return &zz26Pub{id: data[1]}, nil
 }
@@ -80,7 +84,7 @@ func zz26IDFromPublicKey(pk ic.PubKey) (peer.ID, error) {
 func zz26ExtractPublicKey(id peer.ID) (ic.PubKey, error) {
 	s := string(id)
 	if len(s) != 3 || s[0] != 'I' || s[1] != 'D' {
-		return nil, ic.ErrBadKeyType
+		return nil, zz26ErrBadKey
 	}
 	if s[2] <= 1 {
 		return &zz26Pub{id: s[2]}, nil
@@ -88,7 +92,7 @@ func zz26ExtractPublicKey(id peer.ID) (ic.PubKey, error) {
 	if s[2] == 2 {
 		return nil, peer.ErrNoPublicKey
 	}
-	return nil, ic.ErrBadKeyType
+	return nil, zz26ErrBadKey
 }
 
 // ---- RFC3339 text: a 12-byte (sec,nsec) token ----
@@ -260,6 +264,11 @@ func HarnessC26RoundTrip() {
 	verifrt.Assume(sec <= zz26MaxSec)
 	verifrt.Assume(nsec >= 0)
 	verifrt.Assume(nsec < 1000000000)
+	if verifrt.NondetRange("nsecClass", 0, 1) == 0 { // case split for the native witnesses (RFC3339Nano trims zeros)
+		verifrt.Assume(nsec == 0)
+	} else {
+		verifrt.Assume(nsec > 0)
+	}
 	eol := time.Unix(sec, nsec)
 
 	var opts []Option
@@ -338,6 +347,11 @@ func HarnessC26RoundTrip() {
 	check(rec, "created")
 	verifrt.Observe("seq", seq)
 	verifrt.Observe("ttl", ttl)
+	if e, err := rec.Validity(); err == nil {
+		// natively this goes through the real RFC3339Nano formatter and parser
+		verifrt.Observe("eolSec", e.Unix())
+		verifrt.Observe("eolNsec", e.Nanosecond())
+	}
 
 	enc, err := MarshalRecord(rec)
 	verifrt.Assert("C26.marshal-succeeds", err == nil)
